@@ -305,10 +305,14 @@ TypeCases ==
                        Simple("WideText", B("string"), << <<"maxLen", 12>> >>),
                        Simple("MidText", T("t", "WideText"), << <<"minLen", 2>> >>),
                        Simple("SmallText", T("t", "MidText"), << <<"maxLen", 4>> >>),
+                       Simple("Text", T("t", "WideText"), << <<"maxLen", 6>> >>),
+                       Simple("PlusLevel", B("int"), << <<"minInc", 1>>, <<"maxIncPlus", 14>> >>),
+                       Simple("PlusCode", B("string"), << <<"minLenPlus", 1>>, <<"maxLen", 3>> >>),
                        Cx("RestrictedHolder", None,
                           << El("level", T("t", "LevelType"), 1, "1"), El("code", T("t", "ShortCode"), 0, "1"), El("tiny", T("t", "TinyCode"), 0, "1"),
                              El("narrow", T("t", "NarrowLevel"), 0, "1"), El("levels", T("t", "LevelType"), 0, "unb"),
-                             El("small", T("t", "SmallText"), 0, "1") >>, <<>>) >>) >>,
+                             El("small", T("t", "SmallText"), 0, "1"), El("subjectMember", T("t", "Text"), 0, "1"),
+                             El("tailMember", T("t", "PlusLevel"), 0, "1"), El("innerMember", T("t", "PlusCode"), 0, "unb") >>, <<>>) >>) >>,
    three_ns |-> << Xsd("main.xsd", "Unear", << <<"t", "Unear">>, <<"o", "Ufar">> >>,
                     << Imp("Ufar", "far.xsd"),
                        Cx("FocusType", None, << El("subjectMember", B("string"), 1, "1"), Ref("o", "GlobalThing", 0, "1") >>, <<>>) >>),
@@ -359,6 +363,17 @@ TypeCases ==
                     << Cx("BaseType", None, << El("baseItem", B("string"), 1, "1"),
                                                [k |-> "el", n |-> "baseCount", ty |-> B("int"), min |-> 0, max |-> "1", form |-> "unqualified"] >>, <<>>),
                        Cx("FarType", None, << El("farValue", B("string"), 1, "1") >>, <<>>) >>) >>,
+   \* a sequence as a branch of a choice: as the whole content of a type, and below a sequence
+   choice_seq |-> << Xsd("main.xsd", "Unear", NearX,
+                    << [k |-> "complex", n |-> "FocusType", base |-> None,
+                        content |-> << [k |-> "choice", min |-> 1, max |-> "1",
+                                        ps |-> << El("leftBranch", B("string"), 1, "1"),
+                                                  SeqP(1, "1", << El("innerMember", B("string"), 1, "1"), El("tailMember", B("int"), 1, "1") >>) >>] >>,
+                        attrs |-> <<>>],
+                       Cx("LeafType", None,
+                          << El("leafItem", B("string"), 1, "1"),
+                             ChoiceP(<< El("rightBranch", B("string"), 1, "1"),
+                                        SeqP(1, "1", << El("baseItem", B("string"), 1, "1"), El("baseCount", B("int"), 1, "1") >>) >>) >>, <<>>) >>) >>,
    \* XML scoping of prefixes: a component of an imported file and a component of the importer declare the SAME prefix
    \* for different namespaces, each on the component itself
    prefix_scoped |-> << Xsd("main.xsd", "Unear", << <<"t", "Unear">> >>,
@@ -367,7 +382,11 @@ TypeCases ==
                         content |-> << SeqP(1, "1", << El("subjectMember", T("n", "FarType"), 1, "1"), El("tailMember", B("boolean"), 0, "1") >>) >>,
                         attrs |-> <<>>],
                        [k |-> "complex", n |-> "LeafType", base |-> None, xmlns |-> << <<"n", "Uv1">> >>,
-                        content |-> << SeqP(1, "1", << El("leafItem", T("n", "OtherType"), 0, "1") >>) >>, attrs |-> <<>>] >>),
+                        content |-> << SeqP(1, "1", << El("leafItem", T("n", "OtherType"), 0, "1") >>) >>, attrs |-> <<>>],
+                       \* the element binds n to one namespace, its anonymous type re-binds it to the other
+                       [k |-> "element", n |-> "GlobalThing", xmlns |-> << <<"n", "Uv1">> >>,
+                        inline |-> [xmlns |-> << <<"n", "Uv2">> >>, attrs |-> <<>>,
+                                    content |-> << SeqP(1, "1", << El("thingValue", T("n", "FarType"), 1, "1") >>) >>]] >>),
                       Xsd("v1.xsd", "Uv1", << <<"x", "Uv1">> >>,
                     << [k |-> "complex", n |-> "OtherType", base |-> None, xmlns |-> << <<"n", "Uv1">> >>,
                         content |-> << SeqP(1, "1", << El("otherValue", B("string"), 1, "1"), El("midItem", T("n", "MidType"), 0, "1") >>) >>, attrs |-> <<>>],
@@ -377,7 +396,7 @@ TypeCases ==
                     << Cx("kw_self", None, << El("kw_type", B("string"), 1, "1"), El("kw_match", B("int"), 0, "1"), El("kw_async", B("string"), 0, "unb"),
                                               El("kw_crate", B("boolean"), 1, "1") >>,
                           << At("kw_self", B("string"), "opt") >>) >>) >>]
-TypeLabels == IF Tier = "quick" THEN {"builtins_req", "builtins_vec", "text_builtins", "positions", "extension_near", "extension_far", "extension_far_user", "two_foreign", "deep_shared", "homonym_default", "prefix_scoped", "unqualified_form", "name_clash", "wide_extension", "simple_restricted", "keywords", "three_ns", "sibling_collide"}
+TypeLabels == IF Tier = "quick" THEN {"builtins_req", "builtins_vec", "text_builtins", "positions", "extension_near", "extension_far", "extension_far_user", "two_foreign", "deep_shared", "homonym_default", "prefix_scoped", "unqualified_form", "name_clash", "wide_extension", "choice_seq", "simple_restricted", "keywords", "three_ns", "sibling_collide"}
               ELSE DOMAIN TypeCases
 
 \* ---- WSDL shapes
@@ -429,6 +448,12 @@ WsdlCases ==
                          << Msg("request", << Part("auth", "tns", "AuthHeader"), Part("bodyPart", "tns", "GetItem"), Part("trace", "tns", "TraceHeader") >>),
                             \* the output's header part comes first in the message AND first in the alphabet
                             Msg("response", << Part("audit", "tns", "SessionHeader"), Part("parameters", "tns", "GetItemResponse") >>) >>)) >>,
+   \* the address of the port ends in a slash (it is part of the address)
+   address_slash |-> << Wsdl(ReqResp, <<>>,
+                  [Common(<< [n |-> "GetItem", action |-> "act", input |-> [msg |-> "request", parts |-> "parameters", headers |-> <<>>],
+                             output |-> [msg |-> "response", parts |-> "parameters", headers |-> <<>>]] >>,
+                         << Msg("request", << Part("parameters", "tns", "GetItem") >>), Msg("response", << Part("parameters", "tns", "GetItemResponse") >>) >>)
+                    EXCEPT !.address = "addr_slash"]) >>,
    oneway |-> << Wsdl(<< ElemI("Ping", << El("pingNote", B("string"), 0, "1") >>) >>, <<>>,
                   Common(<< [n |-> "Ping", input |-> [msg |-> "request", parts |-> "parameters", headers |-> <<>>]] >>,
                          << Msg("request", << Part("parameters", "tns", "Ping") >>) >>)) >>,
@@ -613,6 +638,6 @@ Emit == PrintT(<<"CASE", ToJson(CaseOf(c))>>)
 Vocab == [names |-> Names, tokens |-> TokTab,
           uris |-> [Unear |-> [uri |-> "http://zv.test/cr/near"], Ufar |-> [uri |-> "http://zv.test/cr/far"], Usvc |-> [uri |-> "http://zv.test/cr/service"],
                     Uthird |-> [uri |-> "http://zv.test/cr/third"], Uv1 |-> [uri |-> "http://zv.test/cr/v1/types"], Uv2 |-> [uri |-> "http://zv.test/cr/v2/types"]],
-          texts |-> [addr |-> "http://127.0.0.1:1/zv/items", act |-> "http://zv.test/cr/service/action"]]
+          texts |-> [addr |-> "http://127.0.0.1:1/zv/items", addr_slash |-> "http://127.0.0.1:1/zv/items/", act |-> "http://zv.test/cr/service/action"]]
 ASSUME PrintT(<<"VOCAB", ToJson(Vocab)>>)
 =======================================================================
